@@ -203,4 +203,116 @@ theorem i_from_str_radix_panic_iff {s n : Nat} (hn : 1 ≤ n) (hs3 : 3 ≤ s) (h
 theorem u_from_str_eq (w n : Nat) (s : List Nat) : UI.fromStr w n s = UI.fromStrRadix w n s 10 := rfl
 theorem i_from_str_eq (w n : Nat) (s : List Nat) : II.fromStr w n s = II.fromStrRadix w n s 10 := rfl
 
+/-! ### `parse_bytes`: `Some` of the same value, `None` for every error -/
+
+theorem u_parse_bytes_spec {w n : Nat} (hn : 1 ≤ n) (hw8 : 8 ≤ w) (hw4 : 4 ∣ w) {r : Nat}
+    (hr : 2 ≤ r) (hr36 : r ≤ 36) (buf : List Nat) :
+    UI.parseBytes w n buf r = .ok (expectOpt w n (expectParse r false (M w n) buf)) :=
+  UI.parseBytes_spec hn hw8 hw4 hr hr36 buf
+example : UI.parseBytes 8 1 [0x37, 0x66] 16 = .ok (some [0x7f]) ∧
+    UI.parseBytes 8 1 [0x37, 0xc3, 0xa9] 16 = .ok none ∧ UI.parseBytes 8 1 [0x37, 0xc3] 16 = .ok none := by
+  decide
+
+theorem i_parse_bytes_spec {s n : Nat} (hn : 1 ≤ n) (hs3 : 3 ≤ s) (hs : s < 32) {r : Nat}
+    (hr : 2 ≤ r) (hr36 : r ≤ 36) (buf : List Nat) :
+    II.parseBytes (2 ^ s) n buf r
+      = .ok (expectOpt (2 ^ s) n (expectParse r true (M (2 ^ s) n) buf)) :=
+  II.parseBytes_spec hn hs3 hs hr hr36 buf
+example : II.parseBytes (2 ^ 3) 1 [0x2d, 0x38, 0x30] 16 = .ok (some [0x80]) := by decide
+
+/-- `parse_bytes` panics only for an out-of-range radix (and then only on valid UTF-8: the
+    `from_utf8` check runs first) -/
+theorem u_parse_bytes_panic {w n : Nat} (hn : 1 ≤ n) (hw8 : 8 ≤ w) (hw4 : 4 ∣ w) (r : Nat)
+    (buf : List Nat) (h : UI.parseBytes w n buf r = .panic) : ¬ (2 ≤ r ∧ r ≤ 36) := by
+  intro hr
+  rw [u_parse_bytes_spec hn hw8 hw4 hr.1 hr.2] at h; cases h
+theorem i_parse_bytes_panic {s n : Nat} (hn : 1 ≤ n) (hs3 : 3 ≤ s) (hs : s < 32) (r : Nat)
+    (buf : List Nat) (h : II.parseBytes (2 ^ s) n buf r = .panic) : ¬ (2 ≤ r ∧ r ≤ 36) := by
+  intro hr
+  rw [i_parse_bytes_spec hn hs3 hs hr.1 hr.2] at h; cases h
+
+/-! ### `from_radix_be` / `from_radix_le` (radix 2..=256, digits are bytes)
+    `Spec.Radix.expectDigits r m ds = some v` iff every digit is `< r` and `v = valueOf r ds < m`. -/
+
+theorem from_radix_be_spec {w n r sh : Nat} (hn : 1 ≤ n) (hwb : w = 8 * 2 ^ sh) (hr : 2 ≤ r)
+    (hr256 : r ≤ 256) (buf : List Nat) (hbuf : ∀ b ∈ buf, b < 256) :
+    UI.fromRadixBe w n buf r = .ok ((expectDigits r (M w n) buf).map (ofNat w n)) :=
+  UI.fromRadixBe_spec hn hwb hr hr256 buf hbuf
+example : UI.fromRadixBe 8 2 [0, 0, 0, 1, 0] 2 = .ok (some [2, 0]) ∧
+    UI.fromRadixBe 8 1 [1, 0] 256 = .ok none ∧ UI.fromRadixBe 8 1 [0, 7] 256 = .ok (some [7]) := by decide
+
+theorem from_radix_le_spec {w n r sh : Nat} (hn : 1 ≤ n) (hwb : w = 8 * 2 ^ sh) (hr : 2 ≤ r)
+    (hr256 : r ≤ 256) (buf : List Nat) (hbuf : ∀ b ∈ buf, b < 256) :
+    UI.fromRadixLe w n buf r = .ok ((expectDigits r (M w n) buf.reverse).map (ofNat w n)) :=
+  UI.fromRadixLe_spec hn hwb hr hr256 buf hbuf
+example : UI.fromRadixLe 8 1 [9, 9, 1, 0, 0] 10 = .ok (some [199]) ∧
+    UI.fromRadixLe 8 1 [9, 10] 10 = .ok none := by decide
+
+/-- `Some(x)` exactly when every digit is below the radix and the denoted value fits -/
+theorem from_radix_be_some_iff {w n r sh : Nat} (hn : 1 ≤ n) (hwb : w = 8 * 2 ^ sh) (hr : 2 ≤ r)
+    (hr256 : r ≤ 256) (buf : List Nat) (hbuf : ∀ b ∈ buf, b < 256) (x : List Nat) :
+    UI.fromRadixBe w n buf r = .ok (some x) ↔
+      (∀ d ∈ buf, d < r) ∧ valueOf r buf < M w n ∧ WF w n x ∧ U w x = valueOf r buf := by
+  rw [from_radix_be_spec hn hwb hr hr256 buf hbuf]
+  unfold expectDigits
+  by_cases h : buf.all (· < r) = true ∧ valueOf r buf < M w n
+  · rw [if_pos h]
+    have hall : ∀ d ∈ buf, d < r := by simpa using h.1
+    simp only [Option.map_some, Outcome.ok.injEq, Option.some.injEq]
+    constructor
+    · intro e; subst e
+      exact ⟨hall, h.2, WF_ofNat _ _ _, by rw [U_ofNat, Nat.mod_eq_of_lt h.2]⟩
+    · rintro ⟨_, _, hx, hu⟩
+      rw [← hu]; exact (eq_ofNat hx).symm
+  · rw [if_neg h]
+    simp only [Option.map_none, Outcome.ok.injEq, reduceCtorEq, false_iff]
+    rintro ⟨h1, h2, _, _⟩
+    exact h ⟨by simpa using h1, h2⟩
+
+theorem from_radix_le_some_iff {w n r sh : Nat} (hn : 1 ≤ n) (hwb : w = 8 * 2 ^ sh) (hr : 2 ≤ r)
+    (hr256 : r ≤ 256) (buf : List Nat) (hbuf : ∀ b ∈ buf, b < 256) (x : List Nat) :
+    UI.fromRadixLe w n buf r = .ok (some x) ↔
+      (∀ d ∈ buf, d < r) ∧ valueOfLE r buf < M w n ∧ WF w n x ∧ U w x = valueOfLE r buf := by
+  rw [from_radix_le_spec hn hwb hr hr256 buf hbuf]
+  unfold expectDigits
+  rw [valueOf_reverse]
+  by_cases h : buf.reverse.all (· < r) = true ∧ valueOfLE r buf < M w n
+  · rw [if_pos h]
+    have hall : ∀ d ∈ buf, d < r := by simpa using h.1
+    simp only [Option.map_some, Outcome.ok.injEq, Option.some.injEq]
+    constructor
+    · intro e; subst e
+      exact ⟨hall, h.2, WF_ofNat _ _ _, by rw [U_ofNat, Nat.mod_eq_of_lt h.2]⟩
+    · rintro ⟨_, _, hx, hu⟩
+      rw [← hu]; exact (eq_ofNat hx).symm
+  · rw [if_neg h]
+    simp only [Option.map_none, Outcome.ok.injEq, reduceCtorEq, false_iff]
+    rintro ⟨h1, h2, _, _⟩
+    exact h ⟨by simpa using h1, h2⟩
+
+theorem from_radix_be_panic_iff {w n sh : Nat} (hn : 1 ≤ n) (hwb : w = 8 * 2 ^ sh) (r : Nat)
+    (buf : List Nat) (hbuf : ∀ b ∈ buf, b < 256) :
+    UI.fromRadixBe w n buf r = .panic ↔ ¬ (2 ≤ r ∧ r ≤ 256) := by
+  constructor
+  · intro h hr
+    rw [from_radix_be_spec hn hwb hr.1 hr.2 buf hbuf] at h; cases h
+  · intro h
+    have : inRange r 256 = false := by simpa [inRange] using h
+    simp [UI.fromRadixBe, this]
+
+theorem from_radix_le_panic_iff {w n sh : Nat} (hn : 1 ≤ n) (hwb : w = 8 * 2 ^ sh) (r : Nat)
+    (buf : List Nat) (hbuf : ∀ b ∈ buf, b < 256) :
+    UI.fromRadixLe w n buf r = .panic ↔ ¬ (2 ≤ r ∧ r ≤ 256) := by
+  constructor
+  · intro h hr
+    rw [from_radix_le_spec hn hwb hr.1 hr.2 buf hbuf] at h; cases h
+  · intro h
+    have : inRange r 256 = false := by simpa [inRange] using h
+    simp [UI.fromRadixLe, this]
+
+/-- the signed types wrap the unsigned result with `from_bits` -/
+theorem i_from_radix_eq (w n : Nat) (buf : List Nat) (r : Nat) :
+    II.fromRadixBe w n buf r = UI.fromRadixBe w n buf r ∧
+    II.fromRadixLe w n buf r = UI.fromRadixLe w n buf r := ⟨rfl, rfl⟩
+
 end Bnum.C10
